@@ -60,6 +60,26 @@ class C12(OutstationProp):
             ops = [("rx", MASTER, "none", hexs(frag(seq, fn, objs)))]
             sid = "c12_e_%d" % i
             out.append(Case(sid, script_text(sid, "outstation", cfg, ops), {"kind": "echo-sweep", "cfg": cfg}))
+        # control requests whose objects fail for DIFFERENT reasons: the handler refuses (NOT_SUPPORTED and other
+        # statuses) and the per-request limit cuts the rest (TOO_MANY_OPS); the request's IIN2 reports the FIRST
+        # failure (seeded change C12_c: the last failing header decided)
+        for i in range(40 if tier == "quick" else 1500):
+            st = rng.choice([4, 4, 4, 7, 6, 0])
+            cfg = {"unsol": 0, "soltx": 2048, "confirm_ms": 1000, "sel": st, "op": st, "maxctl": rng.choice([1, 1, 2, 3]),
+                   "decode": rng.below(4)}
+            def hdr1(gg, vv, idxs, wide=False):
+                return control_header(gg, vv, [(j, g12v1(code=3, count=1, on=j, off=j) if gg == 12 else g41(vv, j)) for j in idxs], wide)
+            hs = b""
+            for k in range(rng.range(2, 4)):
+                gg, vv = rng.choice([(12, 1), (41, 1), (41, 2), (41, 3), (41, 4)])
+                hs += hdr1(gg, vv, [10 * k + j for j in range(rng.range(1, 3))], rng.chance(1, 3))
+            seq = rng.below(16)
+            fn = rng.choice([FN["direct"], FN["select"], FN["direct"]])
+            ops = [("rx", MASTER, "none", hexs(frag(seq, fn, hs)))]
+            if fn == FN["select"]:
+                ops.append(("rx", MASTER, "none", hexs(frag((seq + 1) & 15, FN["operate"], hs))))
+            sid = "c12_m_%d" % i
+            out.append(Case(sid, script_text(sid, "outstation", cfg, ops), {"kind": "mixed-status", "cfg": cfg}))
         # multi-fragment responses: every fragment must fit and parse, wherever the buffer runs out
         for i in range(20 if tier == "quick" else 400):
             cfg = {"unsol": 0, "soltx": rng.choice([249, 250, 251, 252, 253, 300]), "confirm_ms": 1000, "sel": 0, "op": 0, "decode": rng.below(4)}
@@ -105,7 +125,7 @@ class C12(OutstationProp):
                     last_unsol = (s, b)
                 else:
                     fails.append(("tx-function", "transmitted function code %d" % b[1]))
-            if op[0] == "disconnect":
+            if op[0] in ("disconnect", "bounce"):
                 pass
             if op[0] != "rx":
                 continue
@@ -141,6 +161,15 @@ class C12(OutstationProp):
                 # the first solicited response of the step carries the request's sequence number
                 if idle and (sol[0][0] & 15) != (b[0] & 15):
                     fails.append(("sequence-mismatch", "response sequence %d for request sequence %d" % (sol[0][0] & 15, b[0] & 15)))
+            # a control request one of whose objects is refused as NOT_SUPPORTED before any other failure reports it
+            if idle and ok_hdr and fn in (3, 4, 5) and sol and "obj=ok" in dtoks:
+                import c04 as C04mod
+                st_list = C04mod.control_statuses(sol[0][4:])
+                if st_list:
+                    firstbad = next((x for x in st_list if x != 0), 0)
+                    if firstbad == 4 and not (sol[0][3] & 0x04):
+                        fails.append(("control-rejection-not-reported", "control request (function %d): the first failing object is NOT_SUPPORTED (statuses %s) but IIN2 = %#x"
+                                      % (fn, st_list, sol[0][3])))
             # rejections must be reported
             if idle and ok_hdr and fn not in NO_REPLY:
                 rejected = fn in UNSUPPORTED or any(x.startswith("obj=err") for x in dtoks)
